@@ -316,11 +316,6 @@ Proof.
     eapply T2_exec_fail; eauto. rewrite F3. apply exec_start_cmd_of.
 Qed.
 
-Lemma pt_b0_dep_frame_to s R extra i key b b1 b2 e2 :
-  dep_frame s R extra (pt_b0 i key b) b1 -> dep_frame s R e2 b1 b2 ->
-  dep_frame s R (extra ++ e2) (pt_b0 i key b) b2.
-Proof. apply dep_frame_trans. Qed.
-
 Lemma set_ohash_dep_frame s R b i oh : dep_frame s R [] b (set_ohash b i oh).
 Proof.
   constructor; auto.
@@ -358,10 +353,745 @@ Proof.
       destruct okd; [eapply exec_tail_outcome; eauto | eapply T2_deps_fail; eauto]. }
     destruct (rlookup key (c_results (b_cache b))) as [res|] eqn:Er; [|exact Hmiss].
     destruct (hit_cond cfg t b) eqn:Ehc; [|exact Hmiss].
-    eapply T2_hit with (dh := dh) (res := res) (b1 := set_ohash (pt_b0 i key b) i (r_outhash res)); eauto.
-    + apply set_ohash_dep_frame.
-    + reflexivity.
-    + reflexivity.
+    eapply T2_hit with (dh := dh) (res := res) (b1 := set_ohash (pt_b0 i key b) i (r_outhash res)); eauto;
+      try apply set_ohash_dep_frame; reflexivity.
 Qed.
 
+(* ================================================================== what one node's step preserves, any mode *)
+(* [node_frame] of Build_lift_proofs.v with "nobody but the target itself" generalised to "nobody but the
+   target itself or a command of a target that already has a key (a dependency that is re-run)" *)
+Definition label_idle (s : sources) (j : nat) (b : bstate) (l : label) : Prop :=
+  forall d dt, node_at s d = Some (NTarget dt) -> td_label dt = l -> d <> j /\ rt_key (get_rt b d) = None.
+
+Record node_frame2 (s : sources) (j : nat) (b b' : bstate) : Prop := {
+  n2_len   : rt_len b' = rt_len b;
+  n2_sts   : forall i, i <> j -> status_of b' i = status_of b i;
+  n2_key   : forall i, i <> j -> rt_key (get_rt b' i) = rt_key (get_rt b i);
+  n2_exec  : exists extra, b_exec b' = b_exec b ++ extra;
+  n2_taint : forall l, label_in l (c_taint (b_cache b')) = true -> label_in l (c_taint (b_cache b)) = true;
+  n2_taint_other : forall l, (forall t, node_at s j = Some (NTarget t) -> td_label t <> l) ->
+                   label_in l (c_taint (b_cache b')) = label_in l (c_taint (b_cache b));
+  n2_ext   : forall l, label_idle s j b l ->
+             label_in l (w_ext (b_world b')) = label_in l (w_ext (b_world b))
+}.
+
+Lemma node_frame2_refl s j b : node_frame2 s j b b.
+Proof. constructor; auto. exists []. rewrite app_nil_r. reflexivity. Qed.
+
+Lemma node_frame2_trans s j b0 b1 b2 :
+  node_frame2 s j b0 b1 -> node_frame2 s j b1 b2 -> node_frame2 s j b0 b2.
+Proof.
+  intros [A1 A2 A3 [e1 A4] A5 A6 A7] [B1 B2 B3 [e2 B4] B5 B6 B7]. constructor.
+  - congruence.
+  - intros i Hi. rewrite B2, A2; auto.
+  - intros i Hi. rewrite B3, A3; auto.
+  - exists (e1 ++ e2). rewrite B4, A4, app_assoc. reflexivity.
+  - auto.
+  - intros l Hl. rewrite B6, A6; auto.
+  - intros l Hl. rewrite B7, A7; auto.
+    intros d dt Hn Hlab. destruct (Hl d dt Hn Hlab) as [Hdj Hk]. split; [exact Hdj|].
+    rewrite A3; auto.
+Qed.
+
+Lemma node_frame2_mark s j b st : node_frame2 s j b (mark b j st).
+Proof.
+  constructor; autorewrite with bst; auto.
+  - intros i Hi. unfold Build_single_proofs.status_of. rewrite sts_mark. apply status_list_set_other. auto.
+  - intros i _. apply rt_key_mark.
+  - exists []. rewrite app_nil_r. reflexivity.
+Qed.
+
+Lemma node_frame2_pt_b0 s j key b : node_frame2 s j b (pt_b0 j key b).
+Proof.
+  constructor; auto.
+  - apply pt_b0_len.
+  - intros i _. unfold Build_single_proofs.status_of. rewrite sts_pt_b0. reflexivity.
+  - intros i Hi. rewrite pt_b0_other; auto.
+  - exists []. rewrite app_nil_r. reflexivity.
+Qed.
+
+Lemma node_frame2_stopped s j b b' : node_frame2 s j b b' -> node_frame2 s j b (stopped b').
+Proof. intros [A1 A2 A3 A4 A5 A6 A7]. constructor; auto. Qed.
+
+Lemma node_frame2_dep s (R : nat -> tdef -> Prop) extra j b b' :
+  (forall d dt, R d dt -> node_at s d = Some (NTarget dt)) ->
+  dep_frame s R extra b b' -> node_frame2 s j b b'.
+Proof.
+  intros HR [A1 A2 A3 A4 A5 A6 A7 A8 A9 A10]. constructor; auto.
+  - intros i _. unfold Build_single_proofs.status_of. rewrite A2. reflexivity.
+  - eauto.
+  - intros l Hl. rewrite A5 in Hl. exact Hl.
+  - intros l _. rewrite A5. reflexivity.
+  - intros l Hl. apply A8. intro Hin. destruct (A7 l Hin) as (d & dt & Hr & Hlab & Hk).
+    destruct (Hl d dt (HR d dt Hr) Hlab) as [_ Hnone]. congruence.
+Qed.
+
+(* the target's own execution *)
+Lemma node_frame2_exec_ok s j t key tn b1 b3 :
+  node_at s j = Some (NTarget t) -> tn = label_in (td_label t) (c_taint (b_cache b1)) ->
+  exec_ok s t key tn b1 b3 -> (forall i, rt_key (get_rt b3 i) = rt_key (get_rt b1 i)) ->
+  node_frame2 s j b1 b3.
+Proof.
+  intros Hn Htn [K1 K2 K3 K4 K5 K6 K7 K8 K9 K10 K11] Hk.
+  constructor; auto.
+  - intros i _. unfold Build_single_proofs.status_of. rewrite K9. reflexivity.
+  - rewrite K8, exec_start_cmd_of. eauto.
+  - intros l Hl. rewrite K7 in Hl. destruct tn; [eapply label_in_remove_mono; exact Hl | exact Hl].
+  - intros l Hl. rewrite K7. destruct tn; [|reflexivity]. apply label_in_remove_other. exact (Hl t Hn).
+  - intros l Hl. assert (Hne : l <> td_label t).
+    { intro E. destruct (Hl j t Hn (eq_sym E)) as [Hjj _]. congruence. }
+    destruct (null (td_cmd t)); [rewrite K1; reflexivity|].
+    apply (run_command_ext s t _ _ K1). exact Hne.
+Qed.
+
+Lemma node_frame2_exec_fail s j t b1 b3 :
+  node_at s j = Some (NTarget t) ->
+  b_cache b3 = b_cache b1 -> sts b3 = sts b1 -> b_exec b3 = b_exec b1 ++ cmd_of t ->
+  rt_len b3 = rt_len b1 -> ext_frame t (b_world b1) (b_world b3) ->
+  (forall i, rt_key (get_rt b3 i) = rt_key (get_rt b1 i)) ->
+  node_frame2 s j b1 b3.
+Proof.
+  intros Hn Hc Hs Hx Hl He Hk. constructor; auto.
+  - intros i _. unfold Build_single_proofs.status_of. rewrite Hs. reflexivity.
+  - eauto.
+  - intros l Hin. rewrite Hc in Hin. exact Hin.
+  - intros l _. rewrite Hc. reflexivity.
+  - intros l Hidle. apply He. intro E. destruct (Hidle j t Hn (eq_sym E)) as [Hjj _]. congruence.
+Qed.
+
+Lemma node_frame2_pre s j t key extra b b1 :
+  dep_frame s (rdep s (td_deps t)) extra (pt_b0 j key b) b1 -> node_frame2 s j b b1.
+Proof.
+  intro F. eapply node_frame2_trans; [apply node_frame2_pt_b0|].
+  eapply node_frame2_dep; [|exact F]. intros d dt. apply rdep_target.
+Qed.
+
+Lemma node_frame2_task cfg s j t b :
+  node_at s j = Some (NTarget t) -> node_frame2 s j b (process_target cfg s j t b).
+Proof.
+  intro Hn.
+  destruct (process_target_any cfg s j t b)
+    as [Hd ->|dh res b1 Hd Hr Hc F Hca He ->|dh extra b2 Hd F ->
+       |dh extra b1 b3 Hd F Hok Hk Hcas ->|dh extra b1 b3 Hd F C S X L E K ->].
+  - apply node_frame2_mark.
+  - eapply node_frame2_trans; [eapply node_frame2_pre; exact F | apply node_frame2_mark].
+  - eapply node_frame2_trans; [eapply node_frame2_pre; exact F | apply node_frame2_mark].
+  - eapply node_frame2_trans; [eapply node_frame2_pre; exact F|].
+    eapply node_frame2_trans; [|apply node_frame2_mark].
+    eapply node_frame2_exec_ok; [exact Hn | | exact Hok | exact Hk].
+    rewrite (df_taint _ _ _ _ _ F). reflexivity.
+  - eapply node_frame2_trans; [eapply node_frame2_pre; exact F|].
+    eapply node_frame2_trans; [|apply node_frame2_mark].
+    eapply node_frame2_exec_fail; eauto.
+Qed.
+
+Lemma node_frame2_step cfg s sel b j : node_frame2 s j b (process_node cfg s sel b j).
+Proof.
+  destruct (process_node_cases H cfg s sel b j) as [E | [(st & E & _) | (t & Hn & _ & _ & _ & [E | [E _]])]];
+    rewrite E.
+  - apply node_frame2_refl.
+  - apply node_frame2_mark.
+  - apply node_frame2_task; auto.
+  - apply node_frame2_stopped. apply node_frame2_task; auto.
+Qed.
+
+(* ================================================================== reading the outcome off the final state *)
+Lemma cmd_of_cases t : cmd_of t = [] \/ cmd_of t = [td_label t].
+Proof. unfold cmd_of. destruct (null (td_cmd t)); auto. Qed.
+
+(* the facts that hold when the task ends as failed: the commands [extra] of (transitive) dependencies that
+   have a key were (re-)run, then possibly the target's own command; results were stored only under
+   keys of such dependencies; no taint was consumed; no blob and no result was lost *)
+Record failed_facts2 (s : sources) (t : tdef) (b b' : bstate) : Prop := {
+  f2_taint : c_taint (b_cache b') = c_taint (b_cache b);
+  f2_cas   : forall dg x, alookup dg (c_cas (b_cache b)) = Some x -> alookup dg (c_cas (b_cache b')) = Some x;
+  f2_run   : exists extra own,
+      b_exec b' = b_exec b ++ extra ++ own /\ (own = [] \/ own = [td_label t]) /\
+      (forall l, In l extra ->
+         exists d dt, rdep s (td_deps t) d dt /\ td_label dt = l /\ rt_key (get_rt b' d) <> None) /\
+      (forall l, ~ In l extra -> l <> td_label t ->
+         label_in l (w_ext (b_world b')) = label_in l (w_ext (b_world b))) /\
+      (forall k, rlookup k (c_results (b_cache b')) = rlookup k (c_results (b_cache b)) \/
+                 exists d dt, rdep s (td_deps t) d dt /\ rt_key (get_rt b' d) = Some k /\
+                   (exists r, rlookup k (c_results (b_cache b')) = Some r) /\
+                   (null (td_cmd dt) = false -> In (td_label dt) extra))
+}.
+
+Lemma failed_facts2_of s i t key extra own b b1 b3 :
+  dep_frame s (rdep s (td_deps t)) extra (pt_b0 i key b) b1 ->
+  b_cache b3 = b_cache b1 -> b_exec b3 = b_exec b1 ++ own -> (own = [] \/ own = [td_label t]) ->
+  ext_frame t (b_world b1) (b_world b3) ->
+  (forall j, rt_key (get_rt b3 j) = rt_key (get_rt b1 j)) ->
+  failed_facts2 s t b (mark b3 i TFailed).
+Proof.
+  intros [A1 A2 A3 A4 A5 A6 A7 A8 A9 A10] Hc Hx Hown He Hk.
+  assert (Hkey : forall d, rt_key (get_rt (mark b3 i TFailed) d) = rt_key (get_rt b1 d))
+    by (intro d; rewrite rt_key_mark; apply Hk).
+  constructor; autorewrite with bst.
+  - rewrite Hc, A5. reflexivity.
+  - intros dg x Hin. rewrite Hc. apply A10. exact Hin.
+  - exists extra, own. split; [rewrite Hx, A6, app_assoc; reflexivity|]. split; [exact Hown|].
+    split; [|split].
+    + intros l Hl. destruct (A7 l Hl) as (d & dt & Hr & Hlab & Hkd). exists d, dt.
+      split; [exact Hr|]. split; [exact Hlab|]. rewrite Hkey, A4. exact Hkd.
+    + intros l Hl Hne. rewrite (He l Hne). rewrite (A8 l Hl). reflexivity.
+    + intro k. rewrite Hc. destruct (A9 k) as [E|(d & dt & Hr & Hkd & Hs & Hin)]; [left; exact E | right].
+      exists d, dt. split; [exact Hr|]. split; [rewrite Hkey; exact Hkd|]. auto.
+Qed.
+
+Lemma failed_facts2_nothing s t b i : failed_facts2 s t b (mark b i TFailed).
+Proof.
+  constructor; autorewrite with bst; auto.
+  exists [], []. split; [rewrite !app_nil_r; reflexivity|]. split; [left; reflexivity|].
+  split; [intros l []|]. split; [reflexivity|]. intro k. left. reflexivity.
+Qed.
+
+Lemma status_mark_same b i st : i < rt_len b -> status_of (mark b i st) i = st.
+Proof.
+  intro Hi. unfold Build_single_proofs.status_of. rewrite sts_mark. apply status_list_set.
+  rewrite sts_length. exact Hi.
+Qed.
+
+Inductive step_outcome (cfg : config) (s : sources) (i : nat) (t : tdef) (b b' : bstate) : Prop :=
+| SO_failed : status_of b' i = TFailed -> failed_facts2 s t b b' -> step_outcome cfg s i t b b'
+| SO_hit : status_of b' i = THit -> hit_facts H cfg s t b b' -> step_outcome cfg s i t b b'
+| SO_executed : forall dh extra b1 b3,
+    status_of b' i = TExecuted ->
+    dep_hashes s b (td_deps t) = Some dh ->
+    dep_frame s (rdep s (td_deps t)) extra (pt_b0 i (key_of s t dh) b) b1 ->
+    exec_ok s t (key_of s t dh) (label_in (td_label t) (c_taint (b_cache b))) b1 b3 ->
+    (forall j, rt_key (get_rt b3 j) = rt_key (get_rt b1 j)) ->
+    (forall dg x, alookup dg (c_cas (b_cache b1)) = Some x -> alookup dg (c_cas (b_cache b3)) = Some x) ->
+    b' = mark b3 i TExecuted -> step_outcome cfg s i t b b'.
+
+Lemma task_cases2 cfg s i t b b' :
+  task_outcome2 cfg s i t b b' -> i < rt_len b -> step_outcome cfg s i t b b'.
+Proof.
+  intros Ho Hi.
+  destruct Ho as [Hd ->|dh res b1 Hd Hr Hc F Hca He ->|dh extra b2 Hd F ->
+                 |dh extra b1 b3 Hd F Hok Hk Hcas ->|dh extra b1 b3 Hd F C S X L E K ->].
+  - apply SO_failed; [apply status_mark_same; exact Hi | apply failed_facts2_nothing].
+  - assert (Hlen : i < rt_len b1) by (rewrite (df_len _ _ _ _ _ F), pt_b0_len; exact Hi).
+    apply SO_hit; [apply status_mark_same; exact Hlen|].
+    apply hit_cond_true in Hc as (H1 & H2 & H3 & H4).
+    constructor; autorewrite with bst; eauto.
+    rewrite (df_exec _ _ _ _ _ F), app_nil_r. reflexivity.
+  - assert (Hlen : i < rt_len b2) by (rewrite (df_len _ _ _ _ _ F), pt_b0_len; exact Hi).
+    apply SO_failed; [apply status_mark_same; exact Hlen|].
+    eapply failed_facts2_of with (own := []); eauto.
+    + rewrite app_nil_r. reflexivity.
+    + apply ext_frame_refl.
+  - assert (Hlen : i < rt_len b3).
+    { rewrite (eo_len _ _ _ _ _ _ Hok), (df_len _ _ _ _ _ F), pt_b0_len. exact Hi. }
+    eapply SO_executed; eauto. apply status_mark_same; exact Hlen.
+  - assert (Hlen : i < rt_len b3) by (rewrite L, (df_len _ _ _ _ _ F), pt_b0_len; exact Hi).
+    apply SO_failed; [apply status_mark_same; exact Hlen|].
+    eapply failed_facts2_of with (own := cmd_of t); eauto. apply cmd_of_cases.
+Qed.
+
+(* ================================================================== prefixes of the walk, any mode *)
+Section Walk2.
+Variables (cfg : config) (s : sources) (roots : list nat) (w : world) (c : cache).
+Let n := length (s_nodes s).
+Let P k := build_prefix cfg s roots w c k.
+
+Lemma prefix2_frame k : node_frame2 s k (P k) (P (S k)).
+Proof. unfold P at 2. rewrite build_prefix_S. fold (P k). apply node_frame2_step. Qed.
+
+Lemma prefix2_len k : rt_len (P k) = n.
+Proof.
+  induction k as [|k IH].
+  - unfold P, Build_ideal.build_prefix, build_init, rt_len. simpl. apply repeat_length.
+  - rewrite (n2_len _ _ _ _ (prefix2_frame k)). exact IH.
+Qed.
+
+(* a node's status is TNone and it has no key until its step; its status does not change afterwards *)
+Lemma prefix2_status_before k i : k <= i -> status_of (P k) i = TNone.
+Proof.
+  induction k as [|k IH]; intros Hi.
+  - unfold P, Build_ideal.build_prefix, build_init, Build_single_proofs.status_of, sts. simpl.
+    apply nth_map_repeat_rt0.
+  - rewrite (n2_sts _ _ _ _ (prefix2_frame k)) by lia. apply IH; lia.
+Qed.
+
+Lemma prefix2_fresh k i : k <= i -> rt_key (get_rt (P k) i) = None.
+Proof.
+  induction k as [|k IH]; intros Hi.
+  - unfold P, Build_ideal.build_prefix, build_init, get_rt. cbn [seq fold_left b_rt].
+    rewrite nth_repeat. reflexivity.
+  - rewrite (n2_key _ _ _ _ (prefix2_frame k)) by lia. apply IH; lia.
+Qed.
+
+Lemma prefix2_status_after i m : i < m -> status_of (P m) i = status_of (P (S i)) i.
+Proof.
+  intros Him. induction m as [|m IH]; [lia|].
+  destruct (Nat.eq_dec m i) as [->|Hne]; [reflexivity|].
+  rewrite (n2_sts _ _ _ _ (prefix2_frame m)) by lia. apply IH; lia.
+Qed.
+
+Lemma final_status2 i : i < n -> nth i (br_status (build cfg s roots w c)) TNone = status_of (P (S i)) i.
+Proof.
+  intro Hi. rewrite build_is_prefix. cbn [br_status]. fold n. fold (P n).
+  change (nth i (sts (P n)) TNone) with (status_of (P n) i).
+  destruct (Nat.eq_dec (S i) n) as [<-|Hne]; [reflexivity|].
+  apply prefix2_status_after; lia.
+Qed.
+
+(* commands started are never forgotten; taints are only consumed, never added *)
+Lemma prefix2_exec_mono k m : k <= m -> exists extra, b_exec (P m) = b_exec (P k) ++ extra.
+Proof.
+  intros Hkm. induction m as [|m IH].
+  - assert (k = 0) by lia. subst. exists []. rewrite app_nil_r. reflexivity.
+  - destruct (Nat.eq_dec k (S m)) as [->|Hne]; [exists []; rewrite app_nil_r; reflexivity|].
+    destruct IH as [e1 E1]; [lia|].
+    destruct (n2_exec _ _ _ _ (prefix2_frame m)) as [e2 E2].
+    exists (e1 ++ e2). rewrite E2, E1, app_assoc. reflexivity.
+Qed.
+
+Lemma prefix2_taint_mono k m l : k <= m ->
+  label_in l (c_taint (b_cache (P m))) = true -> label_in l (c_taint (b_cache (P k))) = true.
+Proof.
+  intros Hkm. induction m as [|m IH]; intro Hl.
+  - assert (k = 0) by lia. subst. exact Hl.
+  - destruct (Nat.eq_dec k (S m)) as [->|Hne]; [exact Hl|].
+    apply IH; [lia|]. apply (n2_taint _ _ _ _ (prefix2_frame m)). exact Hl.
+Qed.
+
+(* labels are unique: before the step of target i nobody touches its taint or its external condition
+   (a dependency that is re-run by an earlier step has a key, so it is not i) *)
+Lemma prefix2_taint_own i t k : unique_label s i t -> k <= i ->
+  label_in (td_label t) (c_taint (b_cache (P k))) = label_in (td_label t) (c_taint c).
+Proof.
+  intros Hu Hk. induction k as [|k IH]; [reflexivity|].
+  rewrite (n2_taint_other _ _ _ _ (prefix2_frame k)).
+  - apply IH. lia.
+  - intros t' Hn E. specialize (Hu k t' Hn E). lia.
+Qed.
+
+Lemma prefix2_ext_own i t k : unique_label s i t -> k <= i ->
+  label_in (td_label t) (w_ext (b_world (P k))) = label_in (td_label t) (w_ext w).
+Proof.
+  intros Hu Hk. induction k as [|k IH]; [reflexivity|].
+  rewrite (n2_ext _ _ _ _ (prefix2_frame k)).
+  - apply IH. lia.
+  - intros d dt Hn E. specialize (Hu d dt Hn E). subst d. split; [lia|]. apply prefix2_fresh. lia.
+Qed.
+
+(* ================================================================== the step of a target node *)
+Inductive target_step2 (i : nat) (t : tdef) (b b' : bstate) : Prop :=
+| TS2_untouched : b' = b -> target_step2 i t b b'                    (* not selected *)
+| TS2_skipped   : status_of b' i = TSkipped -> b_cache b' = b_cache b -> b_exec b' = b_exec b ->
+                  b_world b' = b_world b -> target_step2 i t b b'     (* a dependency did not succeed / stop *)
+| TS2_task      : step_outcome cfg s i t b b' \/
+                  (exists b'', b' = stopped b'' /\ status_of b'' i = TFailed /\ failed_facts2 s t b b'') ->
+                  target_step2 i t b b'.
+
+Lemma target_step2_at i t : i < n -> node_at s i = Some (NTarget t) -> target_step2 i t (P i) (P (S i)).
+Proof.
+  intros Hi Hn. unfold P at 2. rewrite build_prefix_S. fold (P i).
+  assert (Hlen : i < rt_len (P i)) by (rewrite prefix2_len; exact Hi).
+  destruct (process_node_cases H cfg s (selection s roots) (P i) i)
+    as [E | [(st & E & Hst) | (t' & Hn' & _ & _ & _ & Hpt)]].
+  - apply TS2_untouched. exact E.
+  - destruct Hst as [->|[-> (l & a & Ha)]]; [|rewrite Hn in Ha; discriminate].
+    apply TS2_skipped; rewrite E; autorewrite with bst; auto. apply status_mark_same. exact Hlen.
+  - rewrite Hn in Hn'. inversion Hn'; subst t'. clear Hn'.
+    pose proof (task_cases2 cfg s i t (P i) _ (process_target_any cfg s i t (P i)) Hlen) as Hc.
+    apply TS2_task. destruct Hpt as [E | [E Hff]]; rewrite E; [left; exact Hc | right].
+    eexists. split; [reflexivity|]. rewrite <- status_of_get_rt in Hff. split; [exact Hff|].
+    destruct Hc as [_ Hf|Hs _|dh extra b1 b3 Hs _ _ _ _ _ _]; [exact Hf | congruence | congruence].
+Qed.
+
+(* the three ways the step of a target that is reported Failed / Hit / Executed can have gone *)
+Lemma failed_step i t : i < n -> node_at s i = Some (NTarget t) ->
+  nth i (br_status (build cfg s roots w c)) TNone = TFailed -> failed_facts2 s t (P i) (P (S i)).
+Proof.
+  intros Hi Hn Hst. rewrite final_status2 in Hst by exact Hi.
+  destruct (target_step2_at i t Hi Hn) as [E|Hs _ _ _|[Hc|(b'' & E & Hs & Hf)]].
+  - rewrite E in Hst. rewrite prefix2_status_before in Hst; [discriminate | lia].
+  - congruence.
+  - destruct Hc as [_ Hf|Hs _|dh extra b1 b3 Hs _ _ _ _ _ _]; [exact Hf | congruence | congruence].
+  - rewrite E. destruct Hf as [F1 F2 F3]. constructor; [exact F1 | exact F2 | exact F3].
+Qed.
+
+Lemma ok_step i t st : i < n -> node_at s i = Some (NTarget t) -> st = THit \/ st = TExecuted ->
+  nth i (br_status (build cfg s roots w c)) TNone = st ->
+  step_outcome cfg s i t (P i) (P (S i)).
+Proof.
+  intros Hi Hn Hok Hst. rewrite final_status2 in Hst by exact Hi.
+  destruct (target_step2_at i t Hi Hn) as [E|Hs _ _ _|[Hc|(b'' & E & Hs & Hf)]].
+  - rewrite E in Hst. rewrite prefix2_status_before in Hst; [destruct Hok; congruence | lia].
+  - destruct Hok; congruence.
+  - exact Hc.
+  - rewrite E in Hst. change (status_of (stopped b'') i) with (status_of b'' i) in Hst.
+    destruct Hok; congruence.
+Qed.
+
+(* ---------------------------------------------------------------- C13 / C14: what forces execution *)
+Theorem hit_needs_any_mode i t :
+  i < n -> node_at s i = Some (NTarget t) ->
+  nth i (br_status (build cfg s roots w c)) TNone = THit ->
+  hit_facts H cfg s t (P i) (P (S i)).
+Proof.
+  intros Hi Hn Hst. pose proof Hst as Hst'. rewrite final_status2 in Hst' by exact Hi.
+  destruct (ok_step i t THit Hi Hn (or_introl eq_refl) Hst) as [Hs _|_ Hh|dh extra b1 b3 Hs _ _ _ _ _ _];
+    [congruence | exact Hh | congruence].
+Qed.
+
+Theorem taint_forces_any_mode i t :
+  i < n -> node_at s i = Some (NTarget t) -> unique_label s i t ->
+  label_in (td_label t) (c_taint c) = true ->
+  nth i (br_status (build cfg s roots w c)) TNone <> THit.
+Proof.
+  intros Hi Hn Hu Ht Hst. pose proof (hf_taint _ _ _ _ _ _ (hit_needs_any_mode i t Hi Hn Hst)) as Hf.
+  rewrite (prefix2_taint_own i t i Hu (le_n _)) in Hf. congruence.
+Qed.
+
+Theorem nocache_never_restored_any_mode i t :
+  i < n -> node_at s i = Some (NTarget t) -> td_nocache t = true ->
+  nth i (br_status (build cfg s roots w c)) TNone <> THit.
+Proof.
+  intros Hi Hn Hc Hst. pose proof (hf_nocache _ _ _ _ _ _ (hit_needs_any_mode i t Hi Hn Hst)). congruence.
+Qed.
+
+Theorem cache_off_all_execute_any_mode i t :
+  i < n -> node_at s i = Some (NTarget t) -> cfg_cache cfg = false ->
+  nth i (br_status (build cfg s roots w c)) TNone <> THit.
+Proof.
+  intros Hi Hn Hc Hst. pose proof (hf_cache _ _ _ _ _ _ (hit_needs_any_mode i t Hi Hn Hst)). congruence.
+Qed.
+
+Theorem failing_check_forces_any_mode i t :
+  i < n -> node_at s i = Some (NTarget t) -> unique_label s i t ->
+  td_check t = true -> label_in (td_label t) (w_ext w) = false ->
+  nth i (br_status (build cfg s roots w c)) TNone <> THit.
+Proof.
+  intros Hi Hn Hu Hck Hext Hst. pose proof (hf_check _ _ _ _ _ _ (hit_needs_any_mode i t Hi Hn Hst)) as Hc.
+  unfold check_ok in Hc. rewrite Hck in Hc. cbn [negb orb] in Hc.
+  rewrite (prefix2_ext_own i t i Hu (le_n _)) in Hc. congruence.
+Qed.
+
+(* a hit writes nothing and runs nothing *)
+Theorem hit_is_silent_any_mode i t :
+  i < n -> node_at s i = Some (NTarget t) ->
+  nth i (br_status (build cfg s roots w c)) TNone = THit ->
+  b_cache (P (S i)) = b_cache (P i) /\ b_exec (P (S i)) = b_exec (P i).
+Proof.
+  intros Hi Hn Hst. destruct (hit_needs_any_mode i t Hi Hn Hst) as [_ _ _ _ _ Hc Hx _]. auto.
+Qed.
+
+(* ---------------------------------------------------------------- the step of an Executed target, unpacked *)
+Lemma executed_step i t :
+  i < n -> node_at s i = Some (NTarget t) ->
+  nth i (br_status (build cfg s roots w c)) TNone = TExecuted ->
+  exists dh extra b1 b3,
+    dep_hashes s (P i) (td_deps t) = Some dh /\
+    dep_frame s (rdep s (td_deps t)) extra (pt_b0 i (key_of s t dh) (P i)) b1 /\
+    exec_ok s t (key_of s t dh) (label_in (td_label t) (c_taint (b_cache (P i)))) b1 b3 /\
+    (forall j, rt_key (get_rt b3 j) = rt_key (get_rt b1 j)) /\
+    (forall dg x, alookup dg (c_cas (b_cache b1)) = Some x -> alookup dg (c_cas (b_cache b3)) = Some x) /\
+    P (S i) = mark b3 i TExecuted.
+Proof.
+  intros Hi Hn Hst. pose proof Hst as Hst'. rewrite final_status2 in Hst' by exact Hi.
+  destruct (ok_step i t TExecuted Hi Hn (or_intror eq_refl) Hst)
+    as [Hs _|Hs _|dh extra b1 b3 Hs Hd F Hok Hk Hcas Hb']; [congruence | congruence |].
+  exists dh, extra, b1, b3. auto 10.
+Qed.
+
+(* the taint is consumed by the successful execution (and never comes back during the build) *)
+Theorem taint_consumed_any_mode i t :
+  i < n -> node_at s i = Some (NTarget t) ->
+  nth i (br_status (build cfg s roots w c)) TNone = TExecuted ->
+  label_in (td_label t) (c_taint (br_cache (build cfg s roots w c))) = false.
+Proof.
+  intros Hi Hn Hst.
+  destruct (executed_step i t Hi Hn Hst) as (dh & extra & b1 & b3 & Hd & F & Hok & _ & _ & Hb').
+  assert (Hafter : label_in (td_label t) (c_taint (b_cache (P (S i)))) = false).
+  { rewrite Hb'. autorewrite with bst. rewrite (eo_taints _ _ _ _ _ _ Hok), (df_taint _ _ _ _ _ F).
+    change (c_taint (b_cache (pt_b0 i (key_of s t dh) (P i)))) with (c_taint (b_cache (P i))).
+    destruct (label_in (td_label t) (c_taint (b_cache (P i)))) eqn:Et; [apply label_in_remove | exact Et]. }
+  rewrite build_is_prefix. cbn [br_cache]. fold n. fold (P n).
+  destruct (label_in (td_label t) (c_taint (b_cache (P n)))) eqn:Ef; [|reflexivity].
+  apply (prefix2_taint_mono (S i) n _ ltac:(lia)) in Ef. congruence.
+Qed.
+
+(* ---------------------------------------------------------------- C14: success implies the postconditions *)
+(* [extra] = the commands of dependencies (re-)run by this step before the target's own command; the
+   command of the target started in a world w0 that differs from the world before the step only in what
+   those commands did (in mode all: extra = []) *)
+Theorem executed_post_any_mode i t :
+  i < n -> node_at s i = Some (NTarget t) ->
+  nth i (br_status (build cfg s roots w c)) TNone = TExecuted ->
+  check_ok (b_world (P (S i))) t = true /\
+  (forall o, In o (td_outs t) -> exists x, ws_get (out_path t o) (w_ws (b_world (P (S i)))) = PFile x) /\
+  (null (td_cmd t) = false ->
+     exists w0 extra,
+       b_exec (P (S i)) = b_exec (P i) ++ extra ++ [td_label t] /\
+       (forall l, ~ In l extra -> label_in l (w_ext w0) = label_in l (w_ext (b_world (P i)))) /\
+       run_command s t w0 = Some (b_world (P (S i)))) /\
+  (exists dh res, dep_hashes s (P i) (td_deps t) = Some dh /\
+                  rlookup (key_of s t dh) (c_results (b_cache (P (S i)))) = Some res).
+Proof.
+  intros Hi Hn Hst.
+  destruct (executed_step i t Hi Hn Hst) as (dh & extra & b1 & b3 & Hd & F & Hok & _ & _ & Hb').
+  destruct Hok as [K1 K2 K3 K4 K5 K6 K7 K8 K9 K10 K11].
+  rewrite Hb'. autorewrite with bst. split; [exact K2|]. split; [exact K3|]. split.
+  - intro Hc. rewrite Hc in K1. exists (b_world b1), extra. split; [|split; [|exact K1]].
+    + rewrite K8, exec_start_cmd_of, (df_exec _ _ _ _ _ F). unfold cmd_of. rewrite Hc.
+      rewrite <- app_assoc. reflexivity.
+    + intros l Hl. exact (df_ext _ _ _ _ _ F l Hl).
+  - destruct K4 as [res Hr]. exists dh, res. split; [exact Hd | exact Hr].
+Qed.
+
+(* the command of an executed target was started in this build *)
+Theorem executed_ran_any_mode i t :
+  i < n -> node_at s i = Some (NTarget t) -> null (td_cmd t) = false ->
+  nth i (br_status (build cfg s roots w c)) TNone = TExecuted ->
+  In (td_label t) (br_exec (build cfg s roots w c)).
+Proof.
+  intros Hi Hn Hc Hst.
+  destruct (executed_post_any_mode i t Hi Hn Hst) as (_ & _ & Hrun & _).
+  destruct (Hrun Hc) as (w0 & extra & Hx & _).
+  destruct (prefix2_exec_mono (S i) n ltac:(lia)) as [more Hm].
+  rewrite build_is_prefix. cbn [br_exec]. fold n. fold (P n). rewrite Hm, Hx.
+  apply in_or_app. left. apply in_or_app. right. apply in_or_app. right. left. reflexivity.
+Qed.
+
+(* ---------------------------------------------------------------- C05: a failed target leaves no cache entry of its own *)
+(* full strength: exactly what the step of a target that ends Failed may have changed in the cache *)
+Theorem failed_not_cached_any_mode i t :
+  i < n -> node_at s i = Some (NTarget t) ->
+  nth i (br_status (build cfg s roots w c)) TNone = TFailed ->
+  failed_facts2 s t (P i) (P (S i)).
+Proof. apply failed_step. Qed.
+
+(* every result the step of a failed target stored or replaced is the result of a (transitive) dependency
+   that was re-run by LoadDependencyOutputs, under that dependency's key *)
+Theorem failed_stores_only_deps i t :
+  i < n -> node_at s i = Some (NTarget t) ->
+  nth i (br_status (build cfg s roots w c)) TNone = TFailed ->
+  forall k, rlookup k (c_results (b_cache (P (S i)))) <> rlookup k (c_results (b_cache (P i))) ->
+  exists d dt, rdep s (td_deps t) d dt /\ rt_key (get_rt (P (S i)) d) = Some k /\
+               exists r, rlookup k (c_results (b_cache (P (S i)))) = Some r.
+Proof.
+  intros Hi Hn Hst k Hne.
+  destruct (failed_step i t Hi Hn Hst) as [_ _ (extra & own & _ & _ & _ & _ & Hres)].
+  destruct (Hres k) as [E|(d & dt & Hr & Hk & Hs & _)]; [contradiction|]. eauto.
+Qed.
+
+(* no result is stored under the failed target's own key, provided that key is not also the key of one of
+   its dependencies (keys are digests: for a non-injective digest they may coincide) *)
+Theorem failed_own_key_kept i t dh :
+  i < n -> node_at s i = Some (NTarget t) ->
+  nth i (br_status (build cfg s roots w c)) TNone = TFailed ->
+  dep_hashes s (P i) (td_deps t) = Some dh ->
+  (forall d dt, rdep s (td_deps t) d dt -> rt_key (get_rt (P (S i)) d) <> Some (key_of s t dh)) ->
+  rlookup (key_of s t dh) (c_results (b_cache (P (S i)))) = rlookup (key_of s t dh) (c_results (b_cache (P i))).
+Proof.
+  intros Hi Hn Hst Hd Hg.
+  destruct (failed_step i t Hi Hn Hst) as [_ _ (extra & own & _ & _ & _ & _ & Hres)].
+  destruct (Hres (key_of s t dh)) as [E|(d & dt & Hr & Hk & _)]; [exact E|].
+  exfalso. exact (Hg d dt Hr Hk).
+Qed.
+
+(* ... and neither does a skipped one *)
+Theorem skipped_not_cached_not_run_any_mode i t :
+  i < n -> node_at s i = Some (NTarget t) ->
+  nth i (br_status (build cfg s roots w c)) TNone = TSkipped ->
+  b_cache (P (S i)) = b_cache (P i) /\ b_exec (P (S i)) = b_exec (P i).
+Proof.
+  intros Hi Hn Hst. rewrite final_status2 in Hst by exact Hi.
+  destruct (target_step2_at i t Hi Hn) as [E|_ Hc Hx _|[Hc|(b'' & E & Hs & Hf)]].
+  - rewrite E. auto.
+  - auto.
+  - destruct Hc as [Hs _|Hs _|dh extra b1 b3 Hs _ _ _ _ _ _]; congruence.
+  - rewrite E in Hst. change (status_of (stopped b'') i) with (status_of b'' i) in Hst. congruence.
+Qed.
+
+(* ---------------------------------------------------------------- C14: cached only if successful, any mode *)
+(* the step of a target node changes the stored result under a key k only if k is the target's own key and
+   the target ends Executed, or k is the key of a (transitive) dependency that was re-run successfully *)
+Theorem step_stores_any_mode i t :
+  i < n -> node_at s i = Some (NTarget t) ->
+  forall k,
+    rlookup k (c_results (b_cache (P (S i)))) = rlookup k (c_results (b_cache (P i))) \/
+    (nth i (br_status (build cfg s roots w c)) TNone = TExecuted /\
+     exists dh, dep_hashes s (P i) (td_deps t) = Some dh /\ k = key_of s t dh) \/
+    (exists d dt, rdep s (td_deps t) d dt /\ rt_key (get_rt (P (S i)) d) = Some k /\
+                  exists r, rlookup k (c_results (b_cache (P (S i)))) = Some r).
+Proof.
+  intros Hi Hn k. rewrite final_status2 by exact Hi.
+  assert (Hfail : forall b', failed_facts2 s t (P i) b' ->
+            rlookup k (c_results (b_cache b')) = rlookup k (c_results (b_cache (P i))) \/
+            (exists d dt, rdep s (td_deps t) d dt /\ rt_key (get_rt b' d) = Some k /\
+                          exists r, rlookup k (c_results (b_cache b')) = Some r)).
+  { intros b' [_ _ (extra & own & _ & _ & _ & _ & Hres)].
+    destruct (Hres k) as [E|(d & dt & Hr & Hk & Hs & _)]; [left; exact E | right; eauto]. }
+  destruct (target_step2_at i t Hi Hn) as [E|_ Hc _ _|[Hc|(b'' & E & Hs & Hf)]].
+  - left. rewrite E. reflexivity.
+  - left. rewrite Hc. reflexivity.
+  - destruct Hc as [_ Hf|_ Hh|dh extra b1 b3 Hs Hd F Hok Hk Hcas Hb'].
+    + destruct (Hfail _ Hf) as [E|E]; auto.
+    + left. rewrite (hf_same _ _ _ _ _ _ Hh). reflexivity.
+    + destruct (str_eq_dec k (key_of s t dh)) as [->|Hne]; [right; left; eauto|].
+      rewrite Hb'. autorewrite with bst. rewrite (eo_others _ _ _ _ _ _ Hok k Hne).
+      destruct (df_res _ _ _ _ _ F k) as [E|(d & dt & Hr & Hkd & Hsd & _)]; [left; exact E | right; right].
+      exists d, dt. split; [exact Hr|]. split; [rewrite rt_key_mark, Hk; exact Hkd | exact Hsd].
+  - rewrite E. destruct (Hfail _ Hf) as [E'|E']; auto.
+Qed.
+
+End Walk2.
 End LiftMin.
+
+(* [failed_not_cached_any_mode] with the record unpacked (the statement quoted in properties/LIFTMIN.v) *)
+Theorem failed_not_cached_any_mode_full (H : str -> str) cfg s roots w c i t :
+  i < length (s_nodes s) -> node_at s i = Some (NTarget t) ->
+  nth i (br_status (build H cfg s roots w c)) TNone = TFailed ->
+  let b := build_prefix H cfg s roots w c i in
+  let b' := build_prefix H cfg s roots w c (S i) in
+  c_taint (b_cache b') = c_taint (b_cache b) /\
+  (forall dg x, alookup dg (c_cas (b_cache b)) = Some x -> alookup dg (c_cas (b_cache b')) = Some x) /\
+  exists extra own,
+    b_exec b' = b_exec b ++ extra ++ own /\ (own = [] \/ own = [td_label t]) /\
+    (forall l, In l extra ->
+       exists d dt, rdep s (td_deps t) d dt /\ td_label dt = l /\ rt_key (get_rt b' d) <> None) /\
+    (forall l, ~ In l extra -> l <> td_label t ->
+       label_in l (w_ext (b_world b')) = label_in l (w_ext (b_world b))) /\
+    (forall k, rlookup k (c_results (b_cache b')) = rlookup k (c_results (b_cache b)) \/
+               exists d dt, rdep s (td_deps t) d dt /\ rt_key (get_rt b' d) = Some k /\
+                 (exists r, rlookup k (c_results (b_cache b')) = Some r) /\
+                 (null (td_cmd dt) = false -> In (td_label dt) extra)).
+Proof.
+  intros Hi Hn Hst. cbv zeta.
+  destruct (failed_not_cached_any_mode H cfg s roots w c i t Hi Hn Hst) as [F1 F2 F3]. auto.
+Qed.
+
+(* ================================================================== non-vacuity, mode minimal (digest = identity) *)
+(* the snapshots of Build_examples.v: a (output check) <- b, plus the no-cache target n *)
+From Coq Require Import String.
+From Grog Require Import Build_examples.
+Local Open Scope string_scope.
+
+Definition x_min : config := mkCfg LMinimal true false.
+Definition x_min_off : config := mkCfg LMinimal false false.
+
+Definition m1 := build xH x_min (x_s BNormal "ca") [0; 1; 2] w0 empty_cache.
+Example exm_first : br_status m1 = [TExecuted; TExecuted; TExecuted] /\ br_ok m1 = true.
+Proof. vm_compute. auto. Qed.
+
+Definition m2 := build xH x_min (x_s BNormal "ca") [0; 1; 2] (br_world m1) (br_cache m1).
+Example exm_second : br_status m2 = [THit; THit; TExecuted] /\ br_exec m2 = [L "n"] /\ br_ok m2 = true.
+Proof. vm_compute. auto. Qed.
+
+Definition cm_tainted : cache := mkCache (c_results (br_cache m1)) (c_cas (br_cache m1)) [L "a"].
+Definition m3 := build xH x_min (x_s BNormal "ca") [0; 1; 2] (br_world m1) cm_tainted.
+Example exm_taint : br_status m3 = [TExecuted; THit; TExecuted] /\ c_taint (br_cache m3) = [].
+Proof. vm_compute. auto. Qed.
+
+Definition m4 := build xH x_min_off (x_s BNormal "ca") [0; 1; 2] (br_world m1) (br_cache m1).
+Example exm_cache_off : br_status m4 = [TExecuted; TExecuted; TExecuted].
+Proof. vm_compute. auto. Qed.
+
+Definition wm_destroyed : world := mkWorld (w_ws (br_world m1)) [].
+Definition m5 := build xH x_min (x_s BNormal "ca") [0; 1; 2] wm_destroyed (br_cache m1).
+Example exm_check_forces : br_status m5 = [TExecuted; THit; TExecuted] /\ w_ext (br_world m5) = [L "a"].
+Proof. vm_compute. auto. Qed.
+
+Definition fail_min (beh : behaviour) := build xH x_min (x_s beh "ca2") [0; 1; 2] (br_world m1) (br_cache m1).
+Example exm_failures :
+  Forall (fun beh => br_status (fail_min beh) = [TFailed; TSkipped; TExecuted] /\
+                     br_ok (fail_min beh) = false /\
+                     map fst (c_results (br_cache (fail_min beh))) = map fst (c_results (br_cache m2)))
+         [BFail; BFailAfter; BSkipOutput 0; BBreakCheck].
+Proof. repeat constructor; vm_compute; auto. Qed.
+
+(* a step that re-runs a dependency: the workspace is empty and the stored results name blobs that are not in
+   the CAS (a cache fault), so in mode minimal a is served from the cache (nothing is loaded) and the task
+   of the tainted b has to re-run a before it runs b: a is reported Hit although its command ran *)
+Definition stale (c : cache) : cache :=
+  mkCache (map (fun e => (fst e, mkRes (r_outhash (snd e)) (map (fun od => (fst od, lit "x")) (r_outs (snd e)))))
+               (c_results c)) [] (c_taint c).
+Definition w_ext_only : world := mkWorld [] [L "a"].
+Definition cm_taintb : cache := mkCache (c_results (stale (br_cache m1))) [] [L "b"].
+Definition m7 := build xH x_min (x_s BNormal "ca") [0; 1; 2] w_ext_only cm_taintb.
+Example exm_dep_rerun :
+  br_status m7 = [THit; TExecuted; TExecuted] /\ br_exec m7 = [L "a"; L "b"; L "n"] /\
+  br_ok m7 = true /\ c_taint (br_cache m7) = [].
+Proof. vm_compute. auto. Qed.
+
+(* a FAILED step that re-runs a dependency: b's command now exits 3 (new command text, so a new key); its task
+   re-runs a (storing a's result under a's key again: the stored record changes), then b fails: nothing is
+   stored under b's key, and a's key is not b's key *)
+Definition x_bf : tdef :=
+  mkTD (L "b") (lit "cb2") (lit "v") [] [mkOut OFile (lit "ob")] [0] [] false false BFail false.
+Definition x_sf : sources := mkSrc [NTarget (x_a BNormal "ca"); NTarget x_bf; NTarget x_n] [].
+Definition c_stale : cache := stale (br_cache m1).
+Definition m6 := build xH x_min x_sf [0; 1; 2] w_ext_only c_stale.
+Definition m6_pre (k : nat) : bstate := build_prefix xH x_min x_sf [0; 1; 2] w_ext_only c_stale k.
+Definition key_a6 : str := match rt_key (get_rt (m6_pre 2) 0) with Some k => k | None => [] end.
+Definition key_b6 : str := match rt_key (get_rt (m6_pre 2) 1) with Some k => k | None => [] end.
+
+Example exm_failed_dep_rerun :
+  br_status m6 = [THit; TFailed; TExecuted] /\ br_exec m6 = [L "a"; L "b"; L "n"] /\ br_ok m6 = false /\
+  rlookup key_a6 (c_results (b_cache (m6_pre 2))) <> rlookup key_a6 (c_results (b_cache (m6_pre 1))) /\
+  key_b6 <> [] /\ rlookup key_b6 (c_results (br_cache m6)) = None.
+Proof.
+  split; [vm_compute; reflexivity|]. split; [vm_compute; reflexivity|]. split; [vm_compute; reflexivity|].
+  split; [intro E; vm_compute in E; discriminate E|].
+  split; [intro E; vm_compute in E; discriminate E | vm_compute; reflexivity].
+Qed.
+
+Lemma rdep_x_sf_b d dt : rdep x_sf (td_deps x_bf) d dt -> d = 0.
+Proof.
+  intro Hr. inversion Hr as [ds d0 d' dt' Hin Hres|ds d0 d' dt' e et Hin Hres Hdeep]; subst.
+  - destruct Hin as [<-|[]]. vm_compute in Hres. inversion Hres. reflexivity.
+  - destruct Hin as [<-|[]]. vm_compute in Hres. inversion Hres; subst.
+    inversion Hdeep as [ds d0 d'' dt'' Hin' _|ds d0 d'' dt'' e' et' Hin' _ _]; destruct Hin'.
+Qed.
+
+(* the guard of [failed_own_key_kept] holds in this build *)
+Example exm_failed_guard :
+  exists dh, dep_hashes x_sf (m6_pre 1) (td_deps x_bf) = Some dh /\
+    forall d dt, rdep x_sf (td_deps x_bf) d dt ->
+      rt_key (get_rt (m6_pre 2) d) <> Some (Build_single_proofs.key_of xH x_sf x_bf dh).
+Proof.
+  eexists. split; [vm_compute; reflexivity|].
+  intros d dt Hr. apply rdep_x_sf_b in Hr. subst d. intro E. vm_compute in E. discriminate E.
+Qed.
+
+(* without the guard the statement is false for a non-injective digest: with a constant digest every key is
+   "k"; the tainted b re-runs a (whose stored record names a missing blob), a's new result replaces the
+   record under "k", then b fails -- the record under b's own key changed *)
+Definition kH (_ : str) : str := lit "k".
+Definition c_k : cache := mkCache [(lit "k", mkRes (lit "h") [(lit "file::oa", lit "x")])] [] [L "b"].
+
+Theorem failed_own_key_unguarded_refuted :
+  exists (H : str -> str) cfg s roots w c i t dh,
+    i < List.length (s_nodes s) /\ node_at s i = Some (NTarget t) /\
+    nth i (br_status (build H cfg s roots w c)) TNone = TFailed /\
+    dep_hashes s (build_prefix H cfg s roots w c i) (td_deps t) = Some dh /\
+    rlookup (Build_single_proofs.key_of H s t dh) (c_results (b_cache (build_prefix H cfg s roots w c (S i)))) <>
+    rlookup (Build_single_proofs.key_of H s t dh) (c_results (b_cache (build_prefix H cfg s roots w c i))).
+Proof.
+  exists kH, x_min, x_sf, [0; 1], w_ext_only, c_k, 1, x_bf. eexists.
+  split; [vm_compute; auto|]. split; [reflexivity|]. split; [vm_compute; reflexivity|].
+  split; [vm_compute; reflexivity|]. intro E. vm_compute in E. discriminate E.
+Qed.
+
+(* all the non-vacuity facts of mode minimal in one statement *)
+Theorem liftmin_nonvacuous :
+  (br_status m1 = [TExecuted; TExecuted; TExecuted] /\ br_ok m1 = true) /\
+  (br_status m2 = [THit; THit; TExecuted] /\ br_exec m2 = [L "n"] /\ br_ok m2 = true) /\
+  (br_status m3 = [TExecuted; THit; TExecuted] /\ c_taint (br_cache m3) = []) /\
+  br_status m4 = [TExecuted; TExecuted; TExecuted] /\
+  (br_status m5 = [TExecuted; THit; TExecuted] /\ w_ext (br_world m5) = [L "a"]) /\
+  Forall (fun beh => br_status (fail_min beh) = [TFailed; TSkipped; TExecuted] /\
+                     br_ok (fail_min beh) = false /\
+                     map fst (c_results (br_cache (fail_min beh))) = map fst (c_results (br_cache m2)))
+         [BFail; BFailAfter; BSkipOutput 0; BBreakCheck] /\
+  (br_status m7 = [THit; TExecuted; TExecuted] /\ br_exec m7 = [L "a"; L "b"; L "n"] /\
+   br_ok m7 = true /\ c_taint (br_cache m7) = []).
+Proof.
+  exact (conj exm_first (conj exm_second (conj exm_taint (conj exm_cache_off (conj exm_check_forces
+         (conj exm_failures exm_dep_rerun)))))).
+Qed.
